@@ -4,7 +4,7 @@
    the same definitions are evaluated against the implementation by the correspondence shards of
    harness/c15.py on every run. `reach`, `is_dist`, `walk` are defined independently of the algorithm
    (Proofs/Graph.v: inductive walks over the bond list). *)
-From Coq Require Import Arith List Bool Sorted.
+From Coq Require Import Arith List Bool Sorted Lia.
 From Coq Require Import NArith QArith.
 From Molli Require Import Model.Graph Model.Match Proofs.Graph Proofs.GraphTop Proofs.GraphAdj Proofs.Match Gen.MatchPreds.
 Open Scope nat_scope.
@@ -61,6 +61,12 @@ Proof.
 Qed.
 Print Assumptions C15_ring_iff_not_bridge.
 
+(* in a simple graph (no self loops, at most one bond per pair -- the molecular graphs of the property)
+   `remove_bond g x y` is g minus exactly that one bond, so the clause above reads: in a ring <-> not a bridge *)
+Theorem C15_remove_bond_simple : forall g x y, simple g -> adj g x y -> S (length (remove_bond g x y)) = length g.
+Proof. exact remove_bond_simple. Qed.
+Print Assumptions C15_remove_bond_simple.
+
 (* ---- 4. adjacency accessors = folds over the bond list ---- *)
 Theorem C15_adjacency_agrees : forall g a,
   bonds_with_atom g a = filter (incident g a) (seq 0 (length g)) /\
@@ -76,6 +82,11 @@ Proof.
   split; [apply n_bonds_with_atom_count|]. intros ord. apply bonded_valence_sum.
 Qed.
 Print Assumptions C15_adjacency_agrees.
+
+(* in a simple graph no neighbour is listed twice *)
+Theorem C15_connected_atoms_nodup : forall g a, simple g -> NoDup (connected_atoms g a).
+Proof. exact connected_atoms_nodup. Qed.
+Print Assumptions C15_connected_atoms_nodup.
 
 (* degree sum: on atoms 0..n-1 without self loops the bond counts add up to twice the number of bonds *)
 Theorem C15_handshake : forall n g,
@@ -154,8 +165,16 @@ Example C15_examples :
   yield_bfsd g 0 (Some 2) = BAssert /\
   yield_bfs g 5 None = BOk [6] /\
   is_bond_in_ring g (2,1) = Some true /\ is_bond_in_ring g (3,4) = Some false /\
-  is_bond_in_ring g (5,6) = Some false.
-Proof. vm_compute. repeat split; reflexivity. Qed.
+  is_bond_in_ring g (5,6) = Some false /\
+  simple g /\ adj g 2 1 /\ 2 <> 1.
+Proof.
+  cbv zeta. repeat (split; [vm_compute; reflexivity|]). split; [|split; [left; simpl; tauto|discriminate]].
+  split.
+  - intros b Hb. simpl in Hb. repeat (destruct Hb as [<-|Hb]; [simpl; discriminate|]). destruct Hb.
+  - intros x y. unfold count_joins, joins. cbn [filter fst snd].
+    repeat match goal with |- context [?a =? ?b] => destruct (Nat.eqb_spec a b); subst end;
+      cbn [andb orb length]; try lia; try discriminate.
+Qed.
 
 Example C15_match_examples :
   let c := mk_matom 6 None 0 1 in let n := mk_matom 7 None 0 1 in let x := mk_matom 0 None 0 1 in
